@@ -500,4 +500,41 @@ theorem run_keeps {env : Env} {id : Bytes} {j : Nat} {k : Key} (hr : k.revoked =
       simp only [run] at this
       rw [this]; exact Or.inr h
 
+/-! ### where controller and recovery records come from -/
+
+/-- which effects can write the controller record, and what they write -/
+theorem applyEff_ctrl {env : Env} {tx : Tx} {w : World} {id : Bytes} {e : Eff} {x : Ident}
+    (h : applyEff env tx w id e = .ok x) :
+    x.ctrl = (w id).ctrl ∨ (∃ c, e = .regCtrl c ∧ x.ctrl = c.toCtrl) ∨ (x.ctrl = none ∧ (e = .clearCtrl ∨ e = .deleteID)) := by
+  cases e <;> simp only [applyEff] at h
+  all_goals (try (repeat' split at h))
+  all_goals first
+    | (cases h; done)
+    | (cases h; simp [deleted, *])
+
+/-- which effects can write the recovery record, and what they write -/
+theorem applyEff_recov {env : Env} {tx : Tx} {w : World} {id : Bytes} {e : Eff} {x : Ident}
+    (h : applyEff env tx w id e = .ok x) :
+    x.recov = (w id).recov ∨ (∃ g b, e = .setRecGrp (some g) b ∧ x.recov = .grp g) ∨
+    (∃ a b, e = .setRecOld a b ∧ x.recov = .old a) ∨ (x.recov = .none ∧ (e = .clearRec ∨ e = .deleteID)) := by
+  cases e <;> simp only [applyEff] at h
+  all_goals (try (repeat' split at h))
+  all_goals first
+    | (cases h; done)
+    | (cases h; simp [deleted, *])
+
+
+theorem plan_eff_regCtrl {env : Env} {op : Op} {c : CtrlArg} (h : (plan env op).eff = .regCtrl c) :
+    ∃ p, op = .regIDWithController (plan env op).id c p ∧ (plan env op).auth = .regCtrl c p := by
+  cases op <;> simp [plan] at h ⊢
+  exact h
+
+theorem plan_eff_setRecGrp {env : Env} {op : Op} {g : Option Grp} {b : Bool} (h : (plan env op).eff = .setRecGrp g b) :
+    (∃ idx, op = .setRecovery (plan env op).id g idx ∧ (plan env op).auth = .keyIdx idx) ∨
+    (∃ p, op = .updateRecovery (plan env op).id g p ∧ (plan env op).auth = .recovery p) := by
+  cases op <;> simp [plan] at h ⊢
+  all_goals exact h.1
+
+
+
 end OntVerif.Proofs.OntId
